@@ -27,6 +27,9 @@ type c13Spec struct {
 	Steps    int    `json:"steps"`
 	Window   uint64 `json:"window"`
 	ValSlash bool   `json:"val_slash"`
+	// HighPenalty: governance raises the penalty fraction to its legal maximum (1) during the history and before
+	// the closing unbonds; the chain's module account escrows FX of a queued transfer meanwhile
+	HighPenalty bool `json:"high_penalty,omitempty"`
 }
 
 func init() {
@@ -57,7 +60,7 @@ func c13Cases(seed uint64, tier string) []core.Case {
 	var out []core.Case
 	for i := 0; i < n; i++ {
 		out = append(out, core.MkCase(fmt.Sprintf("C13-%03d", i), c13Spec{Seed: rng.Uint64(), Chain: chains[i%len(chains)], N: 3 + rng.IntN(4),
-			Steps: 60 + rng.IntN(60), Window: uint64(3 + rng.IntN(6)), ValSlash: i%4 == 3}))
+			Steps: 60 + rng.IntN(60), Window: uint64(3 + rng.IntN(6)), ValSlash: i%4 == 3, HighPenalty: i%8 == 7}))
 	}
 	return out
 }
@@ -75,7 +78,7 @@ type c13Oracle struct {
 }
 
 type c13Run struct {
-	slashFraction       sdkmath.LegacyDec // the configured penalty fraction while governance has it switched to zero
+	slashFraction       sdkmath.LegacyDec // the penalty fraction of the genesis parameters (governance switches it to zero, to one, and back)
 	spec                c13Spec
 	c                   *chain.Chain
 	b                   *fix.Bridge
@@ -405,6 +408,20 @@ func (r *c13Run) run() {
 		r.res.Inconclusive = err.Error()
 		return
 	}
+	if spec.HighPenalty {
+		// FX of a queued transfer is escrowed in the chain's module account: the account through which the
+		// penalties are burnt
+		fxTok, err := w.AddFXToken(spec.Chain)
+		if err != nil {
+			r.res.Inconclusive = err.Error()
+			return
+		}
+		if _, res := b.SendToExternal(user, other.Hex(), sdk.NewCoin(fxTok.Base, chain.FX(50000)), sdk.NewCoin(fxTok.Base, chain.FX(10))); !res.OK() {
+			r.res.Inconclusive = "escrow fixture: " + res.ErrString()
+			return
+		}
+		r.res.Count("histories_with_fx_escrow_and_maximal_penalty", 1)
+	}
 	for step := 0; step < spec.Steps && r.res.Inconclusive == ""; step++ {
 		i := rng.IntN(spec.N)
 		m := r.os[i]
@@ -490,10 +507,14 @@ func (r *c13Run) run() {
 			switch rng.IntN(4) {
 			case 3:
 				p := b.K.GetParams(c.Ctx)
-				if p.SlashFraction.IsZero() {
-					p.SlashFraction = r.slashFraction
-				} else {
+				if r.slashFraction.IsNil() {
 					r.slashFraction = p.SlashFraction
+				}
+				if !p.SlashFraction.Equal(r.slashFraction) {
+					p.SlashFraction = r.slashFraction
+				} else if spec.HighPenalty && rng.IntN(2) == 0 {
+					p.SlashFraction = sdkmath.LegacyOneDec()
+				} else {
 					p.SlashFraction = sdkmath.LegacyZeroDec()
 				}
 				if res := c.Msg(&crosschaintypes.MsgUpdateParams{ChainName: spec.Chain, Authority: chain.GovAuthority(), Params: p}); res.OK() {
@@ -614,6 +635,13 @@ func (r *c13Run) run() {
 	if !r.block(22*24*time.Hour) || !r.block(0) {
 		return
 	}
+	if spec.HighPenalty {
+		p := b.K.GetParams(c.Ctx)
+		p.SlashFraction = sdkmath.LegacyOneDec()
+		if res := c.Msg(&crosschaintypes.MsgUpdateParams{ChainName: spec.Chain, Authority: chain.GovAuthority(), Params: p}); res.OK() {
+			r.res.Count("slash_fraction_changes", 1)
+		}
+	}
 	for i, m := range r.os[:spec.N] {
 		if m.removed && !m.gone {
 			r.unbond(i, true)
@@ -702,8 +730,16 @@ func (r *c13Run) unbond(i int, final bool) {
 	slash := rec.GetSlashAmount(r.b.K.GetSlashFraction(c.Ctx))
 	balBefore := c.Balance(c.Ctx, o.Oracle.Acc(), fxtypes.DefaultDenom)
 	supplyBefore := c.Supply(c.Ctx, fxtypes.DefaultDenom)
+	escrowBefore := c.Balance(c.Ctx, chain.ModuleAddr(r.spec.Chain), fxtypes.DefaultDenom)
 	res := c.Msg(&crosschaintypes.MsgUnbondedOracle{ChainName: r.spec.Chain, OracleAddress: o.Oracle.Bech32()})
 	got := c.Balance(c.Ctx, o.Oracle.Acc(), fxtypes.DefaultDenom).Sub(balBefore)
+	// the chain's module account is the escrow of queued / batched / bridged-out FX; penalties only pass through it
+	if escrowAfter := c.Balance(c.Ctx, chain.ModuleAddr(r.spec.Chain), fxtypes.DefaultDenom); !escrowAfter.Equal(escrowBefore) {
+		r.res.Violate("C13/unbond-changed-bridge-escrow", "MsgUnbondedOracle of oracle %d (ok=%v, penalty %s, matured stake %s) changed the FX escrowed in the %s module account from %s to %s", i, res.OK(), slash, liquid, r.spec.Chain, escrowBefore, escrowAfter)
+	}
+	if escrowBefore.IsPositive() {
+		r.res.Count("unbonds_measured_against_a_funded_bridge_escrow", 1)
+	}
 	r.logf("unbond o%d matured=%v liquid=%s delegated=%s unbonding=%s -> ok=%v %s got=%s", i, matured, liquid, delegated, unbonding, res.OK(), short(res.ErrString()), got)
 	if !matured && final && m.removed && r.c.Time.Sub(m.removedAt) > 21*24*time.Hour+time.Minute && unbonding.IsZero() {
 		// governance removed the oracle more than an unbonding period ago and its stake never even
@@ -733,6 +769,12 @@ func (r *c13Run) unbond(i int, final bool) {
 	r.lifecycles++
 	r.res.Count("lifecycles_completed", 1)
 	burnt := supplyBefore.Sub(c.Supply(c.Ctx, fxtypes.DefaultDenom))
+	if slash.GT(liquid) {
+		// the validator was slashed while the stake was delegated and less than the penalty came back: the
+		// penalty is what came back, never more
+		slash = liquid
+		r.res.Count("unbonds_with_the_penalty_capped_at_the_returned_stake", 1)
+	}
 	if !got.Equal(liquid.Sub(slash)) || !burnt.Equal(slash) {
 		r.res.Violate("C13/unbond-payout", "oracle %d unbond: received %s, expected stake %s minus penalty %s; burnt %s", i, got, liquid, slash, burnt)
 	}
